@@ -247,72 +247,8 @@ func monitorPixels(line string, cs []Call, r *RNG) (fails []Failure) {
 	// a Draw that clips the rectangle to the image without re-aligning the path shifts the picture by the overhang): the
 	// pixels of the part inside are those of the picture rendered into an image of its own, the rest is untouched.  The
 	if !alpha {
-		lx, ty := r.Intn(w/2+1), r.Intn(h/2+1) // overhang on the left / top
-		if r.Chance(30) {
-			lx = 0
-		}
-		if r.Chance(30) {
-			ty = 0
-		}
-		win := image.Rect(lx, ty, w+r.Intn(6)-r.Intn(w/3+1), h+r.Intn(6)-r.Intn(h/3+1)) // in the picture's own coordinates
-		if !win.Empty() {
-			// (an *image.NRGBA: x/image/vector's general compositing path, which clips; its fast paths for *image.RGBA and
-			// *image.Alpha index the pixel array with the rectangle's corner and panic when it lies outside the image — the
-			// library below the repository requires the rectangle inside the image there, so that case is not claimed)
-			var wimg draw.Image = image.NewNRGBA(win)
-			pw := func() (pn string) {
-				defer func() {
-					if p := recover(); p != nil {
-						pn = fmt.Sprint(p)
-					}
-				}()
-				rz := &opRecorder{Rasterizer: vec.NewRasterizer(wimg)}
-				rz.Rasterizer.DrawOp = draw.Over
-				var z render.Renderer
-				z.SetRasterizer(rz, own)
-				for _, c := range cs {
-					if c.IsDest() {
-						c.Apply(&z)
-					}
-				}
-				return ""
-			}()
-			if pw != "" {
-				return append(fails, Failure{"C16.no-panic", line, pw})
-			}
-			ref2, _, p2 := renderPixels(cs, false, own, own, draw.Over, false)
-			if p2 == "" {
-				for y := win.Min.Y; y < win.Max.Y; y++ {
-					for x := win.Min.X; x < win.Max.X; x++ {
-						want := [4]uint32{}
-						if image.Pt(x, y).In(own) {
-							want = pixAt(ref2, x, y)
-						}
-						got := pixAt(wimg, x, y)
-						// an *image.NRGBA stores non-premultiplied 8-bit values: reading a pixel back re-premultiplies, which costs one
-						// 8-bit step of the alpha and, for the colours, one 8-bit step divided by the alpha (nothing can be said
-						// about the colour of an almost transparent pixel)
-						close := true
-						for k := range got {
-							d := int64(got[k]) - int64(want[k])
-							tol := int64(0x202)
-							if k < 3 {
-								a := int64(want[3])
-								if a < 0x1000 {
-									continue
-								}
-								tol = 0x202 + 0x202*65535/a
-							}
-							if d < -tol || d > tol {
-								close = false
-							}
-						}
-						if (wimg.ColorModel() == color.RGBAModel && got != want) || !close {
-							return append(fails, Failure{"C16.partly-inside", line, fmt.Sprintf("%dx%d picture, image %v (%T): pixel (%d,%d) is %v, in an image of its own %v", w, h, win, wimg, x, y, got, want)})
-						}
-					}
-				}
-			}
+		if f := partlyInside("C16", line, cs, w, h, r); len(f) > 0 {
+			return append(fails, f...)
 		}
 	}
 	// (b) power-of-two scaling
@@ -327,6 +263,80 @@ func monitorPixels(line string, cs []Call, r *RNG) (fails []Failure) {
 		fails = append(fails, Failure{"C16.colour-indirection", line, fmt.Sprintf("%dx%d alpha=%v: pixels differ at %v", w, h, alpha, firstPixelDiff(base, direct))})
 	}
 	return
+}
+
+// partlyInside: relation (a') of monitorPixels, also run by the suites of C05 and C15 on their own programs (round 5:
+// C05-J and C15-J change raster/vec's Draw, below the rasteriser interface where those suites otherwise observe).
+func partlyInside(pid, line string, cs []Call, w, h int, r *RNG) (fails []Failure) {
+	own := image.Rect(0, 0, w, h)
+	lx, ty := r.Intn(w/2+1), r.Intn(h/2+1) // overhang on the left / top
+	if r.Chance(30) {
+		lx = 0
+	}
+	if r.Chance(30) {
+		ty = 0
+	}
+	win := image.Rect(lx, ty, w+r.Intn(6)-r.Intn(w/3+1), h+r.Intn(6)-r.Intn(h/3+1)) // in the picture's own coordinates
+	if !win.Empty() {
+		// (an *image.NRGBA: x/image/vector's general compositing path, which clips; its fast paths for *image.RGBA and
+		// *image.Alpha index the pixel array with the rectangle's corner and panic when it lies outside the image — the
+		// library below the repository requires the rectangle inside the image there, so that case is not claimed)
+		var wimg draw.Image = image.NewNRGBA(win)
+		pw := func() (pn string) {
+			defer func() {
+				if p := recover(); p != nil {
+					pn = fmt.Sprint(p)
+				}
+			}()
+			rz := &opRecorder{Rasterizer: vec.NewRasterizer(wimg)}
+			rz.Rasterizer.DrawOp = draw.Over
+			var z render.Renderer
+			z.SetRasterizer(rz, own)
+			for _, c := range cs {
+				if c.IsDest() {
+					c.Apply(&z)
+				}
+			}
+			return ""
+		}()
+		if pw != "" {
+			return append(fails, Failure{pid + ".no-panic", line, pw})
+		}
+		ref2, _, p2 := renderPixels(cs, false, own, own, draw.Over, false)
+		if p2 == "" {
+			for y := win.Min.Y; y < win.Max.Y; y++ {
+				for x := win.Min.X; x < win.Max.X; x++ {
+					want := [4]uint32{}
+					if image.Pt(x, y).In(own) {
+						want = pixAt(ref2, x, y)
+					}
+					got := pixAt(wimg, x, y)
+					// an *image.NRGBA stores non-premultiplied 8-bit values: reading a pixel back re-premultiplies, which costs one
+					// 8-bit step of the alpha and, for the colours, one 8-bit step divided by the alpha (nothing can be said
+					// about the colour of an almost transparent pixel)
+					close := true
+					for k := range got {
+						d := int64(got[k]) - int64(want[k])
+						tol := int64(0x202)
+						if k < 3 {
+							a := int64(want[3])
+							if a < 0x1000 {
+								continue
+							}
+							tol = 0x202 + 0x202*65535/a
+						}
+						if d < -tol || d > tol {
+							close = false
+						}
+					}
+					if (wimg.ColorModel() == color.RGBAModel && got != want) || !close {
+						return append(fails, Failure{pid + ".partly-inside", line, fmt.Sprintf("%dx%d picture, image %v (%T): pixel (%d,%d) is %v, in an image of its own %v", w, h, win, wimg, x, y, got, want)})
+					}
+				}
+			}
+		}
+	}
+	return fails
 }
 
 // renderPixelsOffset renders into rect of a sentinel-filled image whose rect area is cleared first.
